@@ -2,10 +2,9 @@
    Only the property theorems, each closed by `exact`.  Model: Doc/Model.v (tied to
    embedded/document on every run by Tie/C19.v); spec = the write log (HistProofs.v) and the
    evaluation of a query on the stored JSON payloads (spec_search in Model.v).
-   The model carries three facts about the code that the harness probes on the real engine on every
-   run (record `flags`: fl_nz -0.0/+0.0 have different index keys, fl_strict INTEGER fields reject
-   non-integral numbers, fl_uf the unique check reads only the first key); the universal theorems
-   hold for every value of the flags, the refutations exhibit the values the code has today. *)
+   The model is the code after the repairs 964c526 (INTEGER fields accept only numbers with an exact
+   int64 representation) and c876bb2 (unique checks consider every live entry); the only fact still
+   handed in from a probe of the real code is s_nz (the float key encoder keeps the sign of zero). *)
 From V Require Import Doc.Model Doc.Facts Doc.RangeProofs Doc.SearchProofs Doc.HistProofs
                       Doc.UniqueProofs Doc.Witness.
 
@@ -46,38 +45,32 @@ Theorem audit_lists_all_revisions :
 Proof. exact audit_is_the_write_log. Qed.
 Print Assumptions audit_lists_all_revisions.
 
-(* "A search returns exactly the documents whose PAYLOAD satisfies the filter" is FALSE for the code
-   as it is: an INTEGER field holds int64(number) in its column, so {n: 0.5} is found by n = 0. *)
-Theorem search_sound_and_complete_refuted :
-  exists sch ops q, let st := fst (run (init sch) ops) in
-    engine_search st q 0 <> spec_search st q 0.
-Proof. exact search_refuted. Qed.
-Print Assumptions search_sound_and_complete_refuted.
-
-(* ... and for a field added after a document was stored: the new column is NULL for it although
-   its payload holds a value. *)
+(* "A search returns exactly the documents whose PAYLOAD satisfies the filter" is still FALSE for a
+   field added after a document was stored: AddField does not back-fill, the new column is NULL for
+   the document although its payload holds a value. *)
 Theorem search_sound_and_complete_refuted_late_field :
   let st := fst (run (init sch_int) ops_late) in
   engine_search st (qeq fM (jint 5)) 0 <> spec_search st (qeq fM (jint 5)) 0.
 Proof. exact search_refuted_late_field. Qed.
 Print Assumptions search_sound_and_complete_refuted_late_field.
 
-(* What holds: for every collection state whose rows agree with their payloads (no field added after
-   a live document was written), whose INTEGER fields and the query's INTEGER constants hold
-   integral numbers in the int64 range, and (while the key encoder keeps the sign of zero) without
-   negative zeros / over-long string constants, every search (filter groups, ordering, limit,
-   offset) returns exactly what the same query returns on the payloads -- same documents, same
-   order, same errors. *)
+(* What holds: for every collection state in which the row of every live document is the conversion
+   of its payload under the current schema (i.e. no field was added after the document was
+   written), and -- while the key encoder keeps the sign of zero -- without negative zeros among
+   DOUBLE values / constants and without string constants longer than the column, every search
+   (OR-groups of comparisons, ordering, limit, offset) returns exactly what the same query returns
+   on the payloads: same documents, same order, same errors (a constant that is not a value of the
+   field's type -- e.g. 0.5 for an INTEGER field -- is an error on both sides).  No proviso on the
+   numbers held by INTEGER fields is needed any more. *)
 Theorem search_sound_and_complete_partial :
   forall (st : state) (q : query) (off : N),
-    rows_agree st -> ints_exact_rows st -> ints_exact_query (st_sch st) q -> nz_safe st q ->
+    rows_agree st -> nz_safe st q ->
     engine_search st q off = spec_search st q off.
 Proof. exact search_partial. Qed.
 Print Assumptions search_sound_and_complete_partial.
 
-(* "Searches return the same documents whether or not an index exists" is FALSE for the code as it
-   is: -0.0 and +0.0 are one value with two index keys, so d = 0 misses {d: -0.0} once an index on d
-   is used. *)
+(* "Searches return the same documents whether or not an index exists" is still FALSE: -0.0 and
+   +0.0 are one value with two index keys, so d = 0 misses {d: -0.0} once an index on d is used. *)
 Theorem search_index_independent_refuted :
   exists st ixs1 ixs2 q,
     engine_search (with_indexes st ixs1) q 0 <> engine_search (with_indexes st ixs2) q 0.
@@ -104,17 +97,14 @@ Theorem search_index_independent_when_keys_normalised :
 Proof. exact index_independent_when_keys_normalised. Qed.
 Print Assumptions search_index_independent_when_keys_normalised.
 
-(* "Unique indexes admit no duplicates" is FALSE for the code as it is (the SQL layer's check reads
-   only the first key under the value; C12): insert 20, delete it, insert 20, insert 20. *)
-Theorem unique_index_no_duplicates_refuted :
-  exists sch ops, uniq_okb (fst (run (init sch) ops)) = false.
-Proof. exact unique_refuted. Qed.
-Print Assumptions unique_index_no_duplicates_refuted.
-
-(* What holds: in every history made of inserts and reads only (nothing deleted, nothing replaced)
-   no two live documents share the tuple of a unique index. *)
+(* Unique indexes admit no duplicates: after EVERY history of inserts (single or multi-document),
+   replaces, deletes, index creations / deletions and reads -- any history that does not add or
+   remove typed fields -- no two live documents share the (key of the) tuple of a unique index.
+   (Outside the model: InsertDocuments runs on a snapshot that need not include the latest
+   transactions; that sequential violation is found by the harness directly and is a known
+   finding.) *)
 Theorem unique_index_no_duplicates_partial :
   forall (sch : schema) (ops : list op),
-    forallb insert_or_read ops = true -> uniq_okb (fst (run (init sch) ops)) = true.
-Proof. exact unique_partial. Qed.
+    forallb keeps_fields ops = true -> uniq_okb (fst (run (init sch) ops)) = true.
+Proof. exact unique_no_duplicates. Qed.
 Print Assumptions unique_index_no_duplicates_partial.
